@@ -131,6 +131,11 @@ func (b *buffer) write(p []byte) (int, error) {
 		}
 		p = p[wrote:]
 	}
+	if b.fileBuf == nil {
+		if b.fileBuf, err = newFileBuffer(b.max-b.memBuf.cap(), b.opts.tmpDir); err != nil {
+			return wrote, err
+		}
+	}
 	// There is more to write, add to file
 	n, err := b.fileBuf.write(p)
 	wrote += n
@@ -184,6 +189,12 @@ func (b *buffer) ReadFrom(r io.Reader) (n int64, err error) {
 
 		// we can't write to memory any more, switch to file
 		var err error
+		if b.fileBuf, err = newFileBuffer(b.max-b.memBuf.cap(), b.opts.tmpDir); err != nil {
+			return wrote, err
+		}
+	}
+
+	if b.fileBuf == nil {
 		if b.fileBuf, err = newFileBuffer(b.max-b.memBuf.cap(), b.opts.tmpDir); err != nil {
 			return wrote, err
 		}
